@@ -12,7 +12,7 @@ use nexosim::verif;
 
 use crate::case::*;
 use crate::ctx::{Actor, Ev, ExecCtx, Res, TraceEv};
-use crate::node::{self, child_salt, mode_log, mt, mtt, sched_err, tt, when_parts, Bench, Msg, Node, Sink, Source};
+use crate::node::{self, with_ev, with_q, child_salt, mode_log, mt, mtt, sched_err, tt, when_parts, Bench, Msg, Node, Sink, Source};
 use crate::rt;
 
 pub const DRIVER_TTL: u8 = 3;
@@ -150,25 +150,25 @@ fn do_sched(
     let addr = &addrs[target as usize];
     let res: Result<Option<ActionKey>, Res> = match via {
         Via::Direct => {
-            let r = catch_unwind(AssertUnwindSafe(|| match (mode, rel, abs) {
-                (Mode::Plain, Some(d), _) => scheduler.schedule_event(Duration::from_nanos(d), Node::on_event, m, addr).map(|_| None),
-                (Mode::Plain, None, Some(t)) => scheduler.schedule_event(mtt(t), Node::on_event, m, addr).map(|_| None),
-                (Mode::Keyed(_), Some(d), _) => scheduler.schedule_keyed_event(Duration::from_nanos(d), Node::on_event, m, addr).map(Some),
-                (Mode::Keyed(_), None, Some(t)) => scheduler.schedule_keyed_event(mtt(t), Node::on_event, m, addr).map(Some),
+            let r = with_ev!(case.nodes[target as usize].sync_inputs, |__f| catch_unwind(AssertUnwindSafe(|| match (mode, rel, abs) {
+                (Mode::Plain, Some(d), _) => scheduler.schedule_event(Duration::from_nanos(d), __f, m, addr).map(|_| None),
+                (Mode::Plain, None, Some(t)) => scheduler.schedule_event(mtt(t), __f, m, addr).map(|_| None),
+                (Mode::Keyed(_), Some(d), _) => scheduler.schedule_keyed_event(Duration::from_nanos(d), __f, m, addr).map(Some),
+                (Mode::Keyed(_), None, Some(t)) => scheduler.schedule_keyed_event(mtt(t), __f, m, addr).map(Some),
                 (Mode::Periodic(p), Some(d), _) => scheduler
-                    .schedule_periodic_event(Duration::from_nanos(d), Duration::from_nanos(p), Node::on_event, m, addr)
+                    .schedule_periodic_event(Duration::from_nanos(d), Duration::from_nanos(p), __f, m, addr)
                     .map(|_| None),
                 (Mode::Periodic(p), None, Some(t)) => scheduler
-                    .schedule_periodic_event(mtt(t), Duration::from_nanos(p), Node::on_event, m, addr)
+                    .schedule_periodic_event(mtt(t), Duration::from_nanos(p), __f, m, addr)
                     .map(|_| None),
                 (Mode::KeyedPeriodic(_, p), Some(d), _) => scheduler
-                    .schedule_keyed_periodic_event(Duration::from_nanos(d), Duration::from_nanos(p), Node::on_event, m, addr)
+                    .schedule_keyed_periodic_event(Duration::from_nanos(d), Duration::from_nanos(p), __f, m, addr)
                     .map(Some),
                 (Mode::KeyedPeriodic(_, p), None, Some(t)) => scheduler
-                    .schedule_keyed_periodic_event(mtt(t), Duration::from_nanos(p), Node::on_event, m, addr)
+                    .schedule_keyed_periodic_event(mtt(t), Duration::from_nanos(p), __f, m, addr)
                     .map(Some),
                 _ => unreachable!(),
-            }));
+            })));
             match r {
                 Ok(Ok(k)) => Ok(k),
                 Ok(Err(e)) => Err(sched_err(e)),
@@ -312,7 +312,7 @@ pub fn run_case(case: &Arc<Case>, ctx: &Arc<ExecCtx>) -> RunInfo {
                 let id = ctx.fresh_msg();
                 let m = Msg::new(ctx, id, *kind, DRIVER_TTL, child_salt(0xD217, idx, 0));
                 ctx.log(Ev::SendBegin { actor: Actor::Driver, port: 2000 + *target, msg: id, kind: *kind, query: false, salt: m.salt, ttl: m.ttl });
-                let r = guard(|| s.process_event(Node::on_event, m, &addrs[*target as usize]));
+                let r = with_ev!(case.nodes[*target as usize].sync_inputs, |__f| guard(|| s.process_event(__f, m, &addrs[*target as usize])));
                 ctx.log(Ev::SendEnd { actor: Actor::Driver, port: 2000 + *target, msg: id, replies: vec![] });
                 r.err().unwrap_or(Res::Ok)
             }
@@ -320,7 +320,7 @@ pub fn run_case(case: &Arc<Case>, ctx: &Arc<ExecCtx>) -> RunInfo {
                 let id = ctx.fresh_msg();
                 let m = Msg::new(ctx, id, *kind, DRIVER_TTL, child_salt(0xD217, idx, 0));
                 ctx.log(Ev::SendBegin { actor: Actor::Driver, port: 2000 + *target, msg: id, kind: *kind, query: true, salt: m.salt, ttl: m.ttl });
-                let r = guard(|| s.process_query(Node::on_query, m, &addrs[*target as usize]));
+                let r = with_q!(case.nodes[*target as usize].sync_inputs, |__f| guard(|| s.process_query(__f, m, &addrs[*target as usize])));
                 let (replies, res) = match r {
                     Ok(rep) => (vec![(rep.replier, rep.msg, rep.via, rep.rvia)], Res::Ok),
                     Err(e) => (vec![], e),
